@@ -38,8 +38,41 @@ const (
 
 // Req is one request line (driver -> worker).
 type Req struct {
-	ID   int64  `json:"id"`
-	Path string `json:"path"`
+	ID      int64   `json:"id"`
+	Path    string  `json:"path"`
+	Filters []FSpec `json:"filters,omitempty"` // non-empty: the file at Path is a raw filtered chunk to be decoded by this pipeline
+}
+
+// FSpec describes one filter of a pipeline (filter id, flags, client data).
+type FSpec struct {
+	ID    uint16   `json:"id"`
+	Flags uint16   `json:"flags,omitempty"`
+	CD    []uint32 `json:"cd,omitempty"`
+}
+
+// runStream decodes a raw chunk through a filter pipeline, as the chunk readers do.
+func runStream(path string, fs []FSpec) Resp {
+	cr := &caseRun{}
+	data, err := os.ReadFile(path)
+	if err != nil {
+		cr.resp.OpenErr = err.Error()
+		return cr.resp
+	}
+	msg := &core.FilterPipelineMessage{Version: 2, NumFilters: uint8(len(fs))}
+	for _, f := range fs {
+		msg.Filters = append(msg.Filters, core.Filter{ID: core.FilterID(f.ID), Flags: f.Flags, NumClientData: uint16(len(f.CD)), ClientData: f.CD})
+	}
+	cr.guard("FilterPipelineMessage.ApplyFilters", func() error {
+		_, err := msg.ApplyFilters(data)
+		if err != nil {
+			cr.resp.OpenErr = err.Error()
+			if len(cr.resp.OpenErr) > 200 {
+				cr.resp.OpenErr = cr.resp.OpenErr[:200]
+			}
+		}
+		return err
+	})
+	return cr.resp
 }
 
 // PanicRec is one recovered panic.
@@ -368,7 +401,12 @@ func TestWorker(t *testing.T) {
 		runtime.ReadMemStats(&ms)
 		before := ms.TotalAlloc
 		fmt.Fprintf(os.Stderr, "=== C07-CASE %d ===\n", rq.ID)
-		rs := runFile(rq.Path)
+		var rs Resp
+		if len(rq.Filters) > 0 {
+			rs = runStream(rq.Path, rq.Filters)
+		} else {
+			rs = runFile(rq.Path)
+		}
 		rs.ID = rq.ID
 		runtime.ReadMemStats(&ms)
 		rs.AllocMB = int64((ms.TotalAlloc - before) >> 20)
